@@ -647,7 +647,7 @@ func parEnd(ex *Executor, st *State, cc *CallCtx, args []Val) (Val, ctl) {
 			da := fmt.Sprintf("%s %s@%s locks[%s]", rw(a.Write), a.Fn, ex.posStr(a), a.Locks)
 			db := fmt.Sprintf("%s %s@%s locks[%s]", rw(b.Write), b.Fn, ex.posStr(b), b.Locks)
 			ex.Races = append(ex.Races, Race{Obj: a.Obj.Name, Path: a.Path, A: da, B: db, Notes: append([]string(nil), st.Notes...), Key: key})
-			ex.violate(st, "race", fmt.Sprintf("data race on %s%s: %s  ||  %s", a.Obj.Name, a.Path, da, db), nil)
+			ex.violate(st, fmt.Sprintf("race:%s|%s", ex.posStr(a), ex.posStr(b)), fmt.Sprintf("data race on %s%s: %s  ||  %s", a.Obj.Name, a.Path, da, db), nil)
 		}
 	}
 	if !found {
